@@ -41,12 +41,37 @@ def mk_endpoint(E, cls=SERVER, handlers=None, symbolic_queue=True):
     return sock, table, ctable
 
 
-@harness('e.finish_stream', ['C10', 'C13', 'C03'], functions=[BASE + '.finish_stream', SC + '.finish_stream', CACHE + '.remove'])
+@harness('e.finish_stream', ['C10', 'C13', 'C03', 'C09', 'C08', 'C07'], functions=[BASE + '.finish_stream', SC + '.finish_stream', CACHE + '.remove',
+                                                                              SC + '.handle_stream'])
 def finish_stream(E):
     sock, table, ctable = mk_endpoint(E)
     h0, c0 = table.has, ctable.has
     s = E.fresh_int('sid')
+    log = OpaqueLog(E)
+    sc_ = sock.attrs['_stream_control']
+    # history: a frame for the stream is dispatched while it is live (if it is), the stream ends, a late frame arrives
+    was_live = E.decide(M.smap_has(E, table, s), 'stream-was-live')
+    f_before = frame(E, 'PayloadFrame', s)
+    r_before = E.call(E.getattr(sc_, 'handle_stream'), [f_before])
+    n_before = len([c for c in log.calls if c[0].kind == 'handler'])
+    E.prove('dispatch:a_frame_for_a_live_stream_is_delivered_once_and_for_an_unknown_one_dropped',
+            (E.truth(r_before) is True and n_before == 1) if was_live else (E.truth(r_before) is False and n_before == 0))
     E.call(E.getattr(sock, 'finish_stream'), [s])
+    f_late = frame(E, 'PayloadFrame', s)
+    r_late = E.call(E.getattr(sc_, 'handle_stream'), [f_late])
+    E.prove('finish:a_frame_arriving_after_the_stream_ended_reaches_nobody[no handler remembered past its release]',
+            E.truth(r_late) is False and len([c for c in log.calls if c[0].kind == 'handler']) == n_before)
+    if E.path.choice(2, 'id-reused-after-the-late-frame') == 1:
+        # ... and the id can be used again at once: a new interaction registered under it receives its frames
+        newh = SOpaque('handler', 'new-interaction')
+        E.assume(z3.And(I(s) >= 1, I(s) <= 0x7FFFFFFF))        # a stream id (requires of register_stream)
+        E.call(E.getattr(sc_, 'register_stream'), [s, newh])
+        f_new = frame(E, 'PayloadFrame', s)
+        r_new = E.call(E.getattr(sc_, 'handle_stream'), [f_new])
+        got = [c for c in log.calls if c[0] is newh]
+        E.prove('finish:the_id_can_be_used_again[frames of the new interaction reach its handler, whatever was looked up before]',
+                E.truth(r_new) is True and len(got) == 1 and got[0][1] == 'frame_received' and got[0][2][0] is f_new)
+        return
     E.cover('finished')
     x = z3.Int(E.path.fresh_name('sk.x'))
     E.prove('finish:removed_from_stream_table_only', z3.Select(table.has, x) == z3.And(z3.Select(h0, x), x != I(s)))
